@@ -100,7 +100,8 @@ package stanza
 //
 //@ spec isSpaceRune(c Int) Bool
 //@ func stanza.isInvalid$1(c, invalidRunes) (bad)
-//@   ensures [C15.rune] bad == (isSpaceRune(c) || exists(k, 0, len(invalidRunes), invalidRunes[k] == c))
+//@   ensures [C15.rune.bad] bad ==> (isSpaceRune(c) || exists(k, 0, len(invalidRunes), invalidRunes[k] == c))
+//@   ensures [C15.rune.ok]  !bad ==> (!isSpaceRune(c) && forall(k, 0, len(invalidRunes), invalidRunes[k] != c))
 //@   loop 1:
 //@     invariant 0 <= $i && $i <= len(invalidRunes) && !isSpaceRune(c)
 //@     invariant forall(k, 0, $i, invalidRunes[k] != c)
@@ -130,3 +131,10 @@ package stanza
 //@ lemma [C15.reject.empty] forall d Str, r Str :: !jValid("") && !jValid("@" + d) && !jValid("/" + r)
 //@ lemma [C15.reject.emptydomain] forall l Str, r Str :: l != "" && !contains(l, "@") ==> !jValid(l + "@") && !jValid(l + "@/" + r)
 //@ lemma [C15.resource.any] forall l Str, d Str, r Str :: okLocal(l) && l != "" && okDomain(d) ==> jRes(l + "@" + d + "/" + r) == r
+
+// ---------------------------------------------------------------------------
+// C06: error replies
+//@ func (*stanza.IQ).MakeError(iq, xerror) (r)
+//@   requires iq != nil
+//@   ensures [C06.makeerror] r == iq && iq.Type == "error" && iq.From == old(iq.To) && iq.To == old(iq.From) && iq.Id == old(iq.Id) && iq.Error != nil && fresh(iq.Error) && iq.Error.Reason == xerror.Reason && iq.Error.Type == xerror.Type && iq.Error.Code == xerror.Code
+//@   assigns iq.Type, iq.From, iq.To, iq.Error
